@@ -13,7 +13,7 @@ import (
 )
 
 type OpSpec struct {
-	Kind  string // revtok revmtls revacme revssh | renew rekey renewtok renewssh rekeyssh
+	Kind  string // revtok revmtls revacme revssh revpopssh | renew rekey renewtok renewssh rekeyssh hrenewssh hrekeyssh
 	Cert  int    // index into the X.509 resp. SSH certificate pool
 	Spell int    // spelling of the serial in the request (revtok, revmtls, revssh)
 	Fault string // n | b (storage call fails before) | a (performed, caller sees failure) | c (CRL regeneration fails)
@@ -35,6 +35,11 @@ var errFault = errors.New("injected storage fault")
 
 func isRevoke(k string) bool { return strings.HasPrefix(k, "rev") }
 func isSSH(k string) bool    { return strings.HasSuffix(k, "ssh") }
+
+// the SSH routes through the real handlers api.SSHRenew / api.SSHRekey / api.SSHRevoke with a proof-of-possession token of the
+// certificate (what `step ssh renew|rekey|revoke` send): the SSHPOP provisioner authorizes the token (it does not consult the
+// revoked table, and a revoked certificate may still ask for its own revocation: "already"), the authority's RenewSSH / RekeySSH
+// read the table once, Revoke writes it once: same model requests as the direct calls, answers taken from the handler's status.
 
 type evt struct {
 	t    int
@@ -69,7 +74,12 @@ func runHist(h *Hist) (string, string) {
 	cur := -1
 	calls := make([]int, n) // calls of the parked storage operation per request
 	decided := make([]bool, n)
-	parked := map[string]bool{"revoke": true, "revokessh": true, "isrevoked": true, "issshrevoked": true}
+	parkedFor := func(t int, op string) bool {
+		if isRevoke(h.Ops[t].Kind) {
+			return op == "revoke" || op == "revokessh"
+		}
+		return op == "isrevoked" || op == "issshrevoked"
+	}
 	hooks.Before = func(op, key string) error {
 		t := cur
 		if t < 0 {
@@ -78,7 +88,7 @@ func runHist(h *Hist) (string, string) {
 		if op == "storecrl" && h.Ops[t].Fault == "c" {
 			return errFault
 		}
-		if !parked[op] {
+		if !parkedFor(t, op) {
 			return nil
 		}
 		// only the request's first call of its storage operation is the modelled step (parked, faulted); should the code
@@ -98,7 +108,7 @@ func runHist(h *Hist) (string, string) {
 	}
 	hooks.After = func(op, key string, ok bool, err error) error {
 		t := cur
-		if t < 0 || !parked[op] || calls[t] > 1 {
+		if t < 0 || !parkedFor(t, op) || calls[t] > 1 {
 			return nil
 		}
 		f := h.Ops[t].Fault
@@ -126,6 +136,8 @@ func runHist(h *Hist) (string, string) {
 				return kind, xs[op.Cert].crt.SerialNumber.String()
 			}
 			return kind, spellSerial(xs[op.Cert].crt.SerialNumber, op.Spell) // as sent; the model applies Validate
+		case "revpopssh":
+			return "rs", strconv.FormatUint(sshs[op.Cert].crt.Serial, 10)
 		case "revssh":
 			return "rs", spellSSHSerial(sshs[op.Cert].crt.Serial, op.Spell) // as sent; the model applies Validate
 		case "renew", "rekey", "renewtok":
@@ -175,6 +187,12 @@ func runHist(h *Hist) (string, string) {
 				code = e.renewSSH(sshs[op.Cert])
 			case "rekeyssh":
 				code = e.rekeySSH(sshs[op.Cert])
+			case "hrenewssh":
+				code = e.renewSSHHandler(sshs[op.Cert])
+			case "hrekeyssh":
+				code = e.rekeySSHHandler(sshs[op.Cert])
+			case "revpopssh":
+				code = e.revokeSSHPOP(sshs[op.Cert], strconv.FormatUint(sshs[op.Cert].crt.Serial, 10), reason)
 			}
 		}()
 	}
@@ -335,7 +353,7 @@ func runHist(h *Hist) (string, string) {
 			if j == i || oj.Cert != oi.Cert || isSSH(oj.Kind) != isSSH(oi.Kind) || state[j] != 3 || answers[j] == "pend" {
 				continue
 			}
-			if !isRevoke(oj.Kind) && startAt[j] > doneAt[i] && answers[j] == "allowed" {
+			if !isRevoke(oj.Kind) && startAt[j] > doneAt[i] && strings.HasSuffix(answers[j], "allowed") { // "early-allowed": answered without reading the table at all
 				impl += " VIOLATION=renewed-after-acknowledged-revocation"
 			}
 			if isRevoke(oj.Kind) && answers[j] == "ok" && j > i {
@@ -375,6 +393,11 @@ func cornerHists() []*Hist {
 		// SSH: a revocation in any decimal spelling blocks renew and rekey, also after a restart; other spellings are refused
 		{NS: 2, Ops: []OpSpec{{"renewssh", 0, 0, "n"}, {"revssh", 0, 0, "n"}, {"renewssh", 0, 0, "n"}, {"rekeyssh", 0, 0, "n"}, {"revssh", 0, 0, "n"}, {"revssh", 1, 1, "n"}, {"renewssh", 1, 0, "n"}, {"renewssh", 0, 0, "n"}, {"revssh", 1, 2, "n"}, {"revssh", 1, 3, "n"}, {"revssh", 1, 4, "n"}},
 			Sched: append(append(append(seqSched(7), -1), 7, 7, 7), 8, 8, 8, 9, 9, 9, 10, 10, 10)},
+		// SSH through the real handlers with proof-of-possession tokens: renew and rekey allowed before, refused after the revocation
+		// (by the certificate's own token or by a JWK token), a second revocation by the revoked certificate refused, also after a restart
+		{NS: 3, Ops: []OpSpec{{"hrenewssh", 0, 0, "n"}, {"hrekeyssh", 0, 0, "n"}, {"revpopssh", 0, 0, "n"}, {"hrenewssh", 0, 0, "n"}, {"hrekeyssh", 0, 0, "n"}, {"revpopssh", 0, 0, "n"},
+			{"revssh", 1, 0, "n"}, {"hrenewssh", 1, 0, "n"}, {"revpopssh", 1, 0, "n"}, {"hrekeyssh", 1, 0, "n"}, {"hrenewssh", 2, 0, "n"}, {"renewssh", 0, 0, "n"}, {"revssh", 0, 2, "n"}},
+			Sched: append(append(append(seqSched(8), -1), 8, 8, 8), 9, 9, 9, 10, 10, 10, 11, 11, 11, 12, 12, 12)},
 		// expired certificates (renewable after expiry): through the renew-token route (made for them; the environment's CA is 90 days
 		// old so that they chain at their own time) and presented as peer certificate: renewed before, refused after the revocation
 		// (by token: expiry taken from the certificate table; over mTLS: from the presented certificate), also after a restart
@@ -399,7 +422,7 @@ func genHist(r *c.Rng) *Hist {
 		ssh := h.NS > 0 && r.Chance(1, 4)
 		if ssh {
 			op.Cert = r.Intn(h.NS)
-			op.Kind = c.Pick(r, []string{"revssh", "revssh", "renewssh", "rekeyssh"})
+			op.Kind = c.Pick(r, []string{"revssh", "revssh", "renewssh", "rekeyssh", "hrenewssh", "hrekeyssh", "revpopssh"})
 			if op.Kind == "revssh" && r.Chance(1, 3) {
 				op.Spell = 1 + r.Intn(5)
 			}
